@@ -52,6 +52,9 @@ def main():
             r2 = sh(os.path.join(VERIF, 'check'), prop, '--replay', f, cwd=VERIF)
             if r2.returncode == 0:
                 dst = os.path.join(VERIF, 'regress', os.path.basename(f))
+                if os.path.exists(dst) and json.load(open(dst)).get('found_on') != 'parent of %s' % commit:
+                    # the same signature was already produced by an earlier defect: keep both replays
+                    dst = dst[:-5] + '-%s.json' % commit
                 if not os.path.exists(dst):
                     obj = json.load(open(f))
                     obj['found_on'] = 'parent of %s' % commit
